@@ -401,6 +401,21 @@ impl IlvCfg {
     }
 }
 
+/// The exploration budget of a program per tier: iterative preemption bounds by number of client threads.
+/// A time cap interrupts the search *between* bounds' executions; it is reported, never hidden.
+pub fn tier_cfg(ctx: &Ctx, client_threads: usize) -> IlvCfg {
+    let quick = ctx.quick();
+    let bounds: Vec<u32> = match (quick, client_threads) {
+        (true, 0..=1) => vec![0, 1, 2, 3],
+        (true, 2) => vec![0, 1, 2],
+        (true, _) => vec![0, 1],
+        (false, 0..=1) => vec![0, 1, 2, 3, 4, 5],
+        (false, 2) => vec![0, 1, 2, 3, 4],
+        (false, _) => vec![0, 1, 2, 3],
+    };
+    IlvCfg { bounds, workers: ctx.workers, split_depth: 0, time_cap_s: Some(if quick { 12.0 } else { 900.0 }), max_executions: None }
+}
+
 /// Explore one program for each preemption bound in turn (the evidence reports the largest completed).
 pub fn run_program(p: Program, oracle: Oracle, cfg: &IlvCfg) -> ScenarioResult {
     let p = Arc::new(p.finalize());
